@@ -78,7 +78,9 @@ def union_round(u):
     shuffled = proxy.log[1][1]
     uu = np.atleast_1d(proxy.log[2][1])
     lv = np.array(u.log_v_all, dtype=float)
-    vrel = np.exp(lv - logsumexp(lv))
+    # member volumes taken from the members themselves, not from the union's own record of them
+    lvm = np.array([float(b.log_v) for b in u.bounds])
+    vrel = np.exp(lvm - logsumexp(lvm))
     member_ok = len(member_out) == len(u.bounds)
     props = []
     for (b, n_req, arr), c in zip(member_out, counts):
